@@ -25,6 +25,7 @@ pub open spec fn ids(nodes: Seq<NodeConfig>) -> Seq<u64> { nodes.map_values(|n: 
 /// config_wf: node ids are pairwise distinct ("distinct voting members")
 pub open spec fn config_wf(c: ClusterConfig) -> bool { ids(c.nodes@).no_duplicates() }
 pub open spec fn is_voter() -> spec_fn(NodeConfig) -> bool { |n: NodeConfig| n.voter }
+pub open spec fn is_learner() -> spec_fn(NodeConfig) -> bool { |n: NodeConfig| !n.voter }
 pub open spec fn is_active_voter(a: Set<u64>) -> spec_fn(NodeConfig) -> bool { |n: NodeConfig| n.voter && a.contains(n.id) }
 pub open spec fn not_id(id: u64) -> spec_fn(NodeConfig) -> bool { |n: NodeConfig| n.id != id }
 /// V: the set of distinct voting members
@@ -339,6 +340,27 @@ impl ClusterConfig {
             let proj = |r: &NodeConfig| *r;
             lemma_filter_index_is_filter(s0, keep, |x: &NodeConfig| is_voter()(proj(x)));
             lemma_map_filter(s0, proj, is_voter());
+            assert(s0.map_values(proj) =~= self.nodes@);
+        }
+//@end
+
+//@fn ClusterConfig::learners ret=r
+//@ensures
+        deref_seq(r@) == self.nodes@.filter(is_learner()),    //#learners_are_the_non_voter_entries
+//@chain ".filter(" c
+//@closure filter#1 (n: &&NodeConfig) -> (b: bool) ensures b == (@BODY)
+//@after "let c1 ="
+        let ghost s0 = c1.remaining();
+//@after "let c2 ="
+        let ghost keep = vstd::std_specs::iter::filter_keep(c2);
+        let ghost s1 = c2.remaining();
+//@after "let c3 ="
+        proof {
+            assert(keep.len() == s0.len());
+            assert(s0.take(keep.len() as int) =~= s0);
+            let proj = |r: &NodeConfig| *r;
+            lemma_filter_index_is_filter(s0, keep, |x: &NodeConfig| is_learner()(proj(x)));
+            lemma_map_filter(s0, proj, is_learner());
             assert(s0.map_values(proj) =~= self.nodes@);
         }
 //@end
